@@ -133,7 +133,7 @@ def position_of(ex, ev, p, inside_arg=3, count_arg=4):
 
 
 def check(rep, key, F, fn, witnesses, outcome, no_inline=HELPERS, floor=10, where=None):
-    ex = Symex(F, no_inline=no_inline, max_paths=20000)
+    ex = Symex(F, no_inline=no_inline, max_paths=20000, concrete_iters=True, loop_bound=6)
     try:
         paths = ex.run(fn)
     except Unanalysable as e:
